@@ -302,7 +302,13 @@ func nodeIsReady(n *corev1.Node) bool {
 // onWrite observes every committed change of a NodeClaim.
 func (p *lifeProfile) onWrite(ev WatchEvent, old client.Object, by *Task) {
 	s := p.s
-	if ev.GVK != gvkNodeClaim || ev.Type == EvDeleted {
+	if ev.GVK != gvkNodeClaim {
+		return
+	}
+	if by != nil && old != nil && hasFinalizer(old, v1.TerminationFinalizer) && (ev.Type == EvDeleted || !hasFinalizer(ev.Obj, v1.TerminationFinalizer)) {
+		checkNodeClaimFinalized(s, p.e.CP, old.(*v1.NodeClaim), by)
+	}
+	if ev.Type == EvDeleted {
 		return
 	}
 	nc := ev.Obj.(*v1.NodeClaim)
@@ -745,7 +751,8 @@ func (e *Env) MakeNodePool(name string, ch *Chooser) *v1.NodePool {
 }
 
 func (e *Env) MakeNodeClaim(name string, np *v1.NodePool, ch *Chooser) *v1.NodeClaim {
-	nc := &v1.NodeClaim{ObjectMeta: metav1.ObjectMeta{Name: name, Labels: map[string]string{v1.NodePoolLabelKey: np.Name},
+	nc := &v1.NodeClaim{ObjectMeta: metav1.ObjectMeta{Name: name, Labels: map[string]string{v1.NodePoolLabelKey: np.Name,
+		v1.NodeClassLabelKey(np.Spec.Template.Spec.NodeClassRef.GroupKind()): np.Spec.Template.Spec.NodeClassRef.Name},
 		OwnerReferences: []metav1.OwnerReference{{APIVersion: "karpenter.sh/v1", Kind: "NodePool", Name: np.Name, UID: np.UID, BlockOwnerDeletion: ptr.To(true)}}}}
 	for k, v := range np.Spec.Template.Labels {
 		nc.Labels[k] = v
